@@ -199,6 +199,73 @@ func CheckC09(e *Env) int {
 			}
 		}
 	}
+	// the same rule when the needing provider is reached through a binding, a struct-provider
+	// field, a field provider's parent, a set nested two levels deep — and NOT applied to a
+	// set member this injector does not need
+	for injShape := 0; injShape < 4; injShape++ {
+		for need := 1; need < 4; need++ {
+			for _, link := range []string{"bind", "struct-field", "fields-parent", "nested-two-levels", "other-package-set", "unneeded-set-member"} {
+				n++
+				b := NewPB(fmt.Sprintf("sg%04d", n), "app", "libn")
+				injCu, injErr := injShape&1 != 0, injShape&2 != 0
+				needCu, needErr := need&1 != 0, need&2 != 0
+				top := b.Carrier(0, "Top")
+				var build []Ref
+				stub := func(it *Item) *Item { it.Stub = true; return it }
+				switch link {
+				case "bind":
+					t0 := b.Carrier(0, "Conc")
+					ifc := b.Iface(0, "Iface", PtrTo(t0), true)
+					pf := stub(b.Func(0, "NewConc", PtrTo(t0), needCu, needErr))
+					build = refs(pf, b.Bind(ifc, PtrTo(t0)), stub(b.Func(0, "NewTop", top, false, false, ifc)))
+				case "struct-field":
+					t0 := b.Carrier(0, "Dep")
+					sd := b.NamedOf(0, "Holder", StructOf(FieldT{Name: "F", Ty: t0}), "none")
+					pf := stub(b.Func(0, "NewDep", t0, needCu, needErr))
+					build = refs(pf, b.Struct(sd, false, "F"), stub(b.Func(0, "NewTop", top, false, false, PtrTo(sd))))
+				case "fields-parent":
+					x := b.Carrier(0, "Fld")
+					par := b.NamedOf(0, "Parent", StructOf(FieldT{Name: "Fld", Ty: x}), "none")
+					pf := stub(b.Func(0, "NewParent", par, needCu, needErr))
+					build = refs(pf, b.Fields(par, "Fld"), stub(b.Func(0, "NewTop", top, false, false, x)))
+				case "nested-two-levels":
+					t0 := b.Carrier(0, "Dep")
+					pf := stub(b.Func(0, "NewDep", t0, needCu, needErr))
+					inner := b.Set(0, "Inner", ItemRef(pf.ID))
+					outer := b.Set(0, "Outer", SetRef(inner.ID))
+					build = []Ref{SetRef(outer.ID), ItemRef(stub(b.Func(0, "NewTop", top, false, false, t0)).ID)}
+				case "other-package-set":
+					t0 := b.Carrier(1, "Dep")
+					pf := stub(b.Func(1, "NewDep", t0, needCu, needErr))
+					ls := b.Set(1, "LibSet", ItemRef(pf.ID))
+					build = []Ref{SetRef(ls.ID), ItemRef(stub(b.Func(0, "NewTop", top, false, false, t0)).ID)}
+				case "unneeded-set-member":
+					t0 := b.Carrier(0, "NotNeeded")
+					t1 := b.Carrier(0, "Needed")
+					pf := stub(b.Func(0, "NewNotNeeded", t0, needCu, needErr))
+					qf := stub(b.Func(0, "NewNeeded", t1, false, false))
+					st := b.Set(0, "Mixed", ItemRef(pf.ID), ItemRef(qf.ID))
+					build = []Ref{SetRef(st.ID), ItemRef(stub(b.Func(0, "NewTop", top, false, false, t1)).ID)}
+				}
+				b.Inj("Init", top, injCu, injErr, nil, build...)
+				cell := fmt.Sprintf("inj(cleanup=%v,err=%v)/need(cleanup=%v,err=%v)/via=%s", injCu, injErr, needCu, needErr, link)
+				b.P.Note = cell
+				ok := (!needCu || injCu) && (!needErr || injErr)
+				if link == "unneeded-set-member" {
+					ok = true
+				}
+				if ok {
+					cases = append(cases, &RejectCase{P: b.P, Control: true, Cell: "legal:" + cell})
+				} else {
+					class := "need-err"
+					if needCu && !injCu {
+						class = "need-cleanup"
+					}
+					cases = append(cases, &RejectCase{P: b.P, Class: class, Cell: "illegal:" + cell})
+				}
+			}
+		}
+	}
 	// duplicate parameter types
 	for arity := 2; arity <= 4; arity++ {
 		for i := 0; i < arity; i++ {
